@@ -5,6 +5,7 @@ func init() {
 	vRegister("H_C11_verify", H_C11_verify)
 	vRegister("H_C11_chain", H_C11_chain)
 	vRegister("H_C11_nosig", H_C11_nosig)
+	vRegister("H_C11_session", H_C11_session)
 	vRegister("H_C11_vacuity", H_C11_vacuity)
 }
 
@@ -367,4 +368,68 @@ func H_C11_nosig() {
 func H_C11_vacuity() {
 	c := vC11Build()
 	vAssert(len(c.packed) < 12, "vacuity-twin")
+}
+
+// H_C11_session: the TSIG state kept by the client connection (Conn) and by the server's response writer: a signed
+// query written by Conn.WriteMsg is accepted by the server, the server's signed reply (chained to the request MAC)
+// is accepted by Conn.ReadMsg, an altered reply is not - and the same holds for a second query on the same connection.
+func H_C11_session() {
+	vFixNow(1700000100)
+	now := vNow()
+	secrets := map[string]string{"key.": vC11Secret}
+	cw := &vConn{} // what the client writes
+	co := &Conn{Conn: cw, TsigSecret: secrets}
+	srv := &Server{TsigSecret: secrets}
+	var statuses []error
+	srv.Handler = HandlerFunc(func(w ResponseWriter, r *Msg) {
+		statuses = append(statuses, w.TsigStatus())
+		m := new(Msg)
+		m.SetReply(r)
+		if t := r.IsTsig(); t != nil {
+			m.SetTsig(t.Hdr.Name, t.Algorithm, 300, now)
+		}
+		w.WriteMsg(m)
+	})
+	srv.MsgInvalidFunc = func(m []byte, err error) {}
+	srv.init()
+	sw := &vConn{} // what the server writes
+	w := &response{tsigProvider: srv.tsigProvider(), tcp: sw}
+	w.writer = w
+	rounds := 1 + vChoice("rounds", 2)
+	tamperRound := -1
+	if vChoice("tamper", 2) == 1 {
+		tamperRound = vChoice("tamperround", rounds)
+	}
+	vReach("session")
+	for i := 0; i < rounds; i++ {
+		q := new(Msg)
+		q.Id = vU16("id" + vItoa(i))
+		q.Question = []Question{{Name: string([]byte{vLower("l" + vItoa(i))}) + ".ex.", Qtype: TypeA, Qclass: ClassINET}}
+		q.SetTsig("key.", HmacSHA256, 300, now)
+		err := co.WriteMsg(q)
+		vAssert(err == nil && len(cw.writes) == i+1, "signed-query-is-written")
+		if err != nil || len(cw.writes) != i+1 {
+			return
+		}
+		wire := cw.writes[i][2:]
+		srv.serveDNS(append([]byte{}, wire...), w)
+		vAssert(len(statuses) == i+1 && len(sw.writes) == i+1, "server-handles-and-answers-the-query")
+		if len(statuses) != i+1 || len(sw.writes) != i+1 {
+			return
+		}
+		vAssert(statuses[i] == nil, "server-accepts-the-clients-signed-query")
+		reply := append([]byte{}, sw.writes[i]...)
+		if i == tamperRound {
+			reply[2+3] ^= 1 << uint(vChoice("bit", 4)) // a bit of the RCODE nibble
+		}
+		co.Conn = &vConn{in: reply}
+		r, rerr := co.ReadMsg()
+		co.Conn = cw
+		vObserve("round", i, rerr)
+		if i == tamperRound {
+			vAssert(rerr != nil, "altered-reply-is-rejected-by-the-client")
+			return
+		}
+		vAssert(rerr == nil && r != nil && r.Id == q.Id, "client-accepts-the-servers-signed-reply")
+	}
 }
